@@ -165,3 +165,21 @@ def attr_chain_root(node: ast.AST) -> Optional[str]:
     while isinstance(n, (ast.Attribute, ast.Subscript, ast.Call)):
         n = n.value if not isinstance(n, ast.Call) else n.func
     return n.id if isinstance(n, ast.Name) else None
+
+
+def bind_call(call: ast.Call, params: List[str], skip_first: bool = False) -> dict:
+    """Map callee parameter names to the argument expressions of ``call`` (positional and keyword;
+    starred arguments are not bound)."""
+    names = params[1:] if skip_first else list(params)
+    out = {}
+    i = 0
+    for a in call.args:
+        if isinstance(a, ast.Starred):
+            break
+        if i < len(names):
+            out[names[i]] = a
+        i += 1
+    for k in call.keywords:
+        if k.arg is not None:
+            out[k.arg] = k.value
+    return out
